@@ -165,6 +165,36 @@ def _gen_big_echo_with_pings(rng, tier):
                "client": client, "reactor": {"kind": "ws", "echo_close": False}, "truth": {}, "sched": {"seed": rng.randrange(1 << 30)}, "horizon": 100.0}
 
 
+def _gen_h2_idle_twice(rng, tier):
+    """HTTP/2: the connection is told it is idle when it already is (the client resets a stream whose response is complete; a request the
+    server answers itself), and a request slower than what is left of the first idle period follows: it is served on both workers - the
+    idle period that counts began with the last notification, and ended with the request."""
+    from ..wire.h2raw import FrameBuilder, client_preface
+
+    for i in range(8 if tier == "quick" else 150):
+        T = 1.0
+        tag = 8600000 + i * 10
+        fb = FrameBuilder()
+        fast = [["recv_until_end"], ["respond", 200, [(b"x-tag", b"%d" % tag)], b"first"]]
+        slow = [["recv_until_end"], ["sleep", rng.choice([0.7, 0.9]) * T], ["respond", 200, [(b"x-tag", b"%d" % (tag + 1))], b"slow"]]
+        h = lambda sid, t_: fb.headers(sid, [(b":method", b"GET"), (b":scheme", b"http"), (b":path", b"/t%d" % t_), (b":authority", b"h.example")], end_stream=True)
+        first = client_preface(fb, {}) + h(1, tag)
+        again = rng.choice(["rst_complete", "rst_complete", "foreign_authority"])
+        if again == "rst_complete":
+            second = fb.rst(1, 8)
+        else:
+            second = fb.headers(3, [(b":method", b"GET"), (b":scheme", b"http"), (b":path", b"/other"), (b":authority", b"other.example")], end_stream=True)
+        sid3 = 3 if again == "rst_complete" else 5
+        client = [["feed", first], ["settle"], ["advance", 0.2 * T], ["feed", second], ["settle"], ["advance", rng.choice([0.4, 0.6]) * T],
+                  ["feed", h(sid3, tag + 1)], ["settle"], ["advance", 1.2 * T], ["settle"], ["advance", 3 * T], ["settle"]]
+        config = {"keep_alive_timeout": T}
+        if again == "foreign_authority":
+            config["server_names"] = ["h.example"]
+        yield {"family": "c16:h2-idle-twice." + again, "source": "c16", "backends": ["asyncio", "trio"], "config": config, "conn": {},
+               "apps": {"default": fast, "by_tag": {str(tag): fast, str(tag + 1): slow}}, "client": client, "reactor": {"kind": "h2", "credit": "auto"},
+               "truth": {}, "sched": {"seed": rng.randrange(1 << 30)}, "horizon": 100.0}
+
+
 def _gen_half_closed(rng, tier):
     """A client that has finished sending (half-close) but goes on reading, and an application that takes longer than keep_alive_timeout to
     answer: the response is owed on both workers (nothing is waiting to be written meanwhile: nobody is failing to take anything)."""
@@ -185,6 +215,7 @@ def _gen_half_closed(rng, tier):
 def gen(rng, tier):
     yield from _gen_half_closed(rng, tier)
     yield from _gen_big_echo_with_pings(rng, tier)
+    yield from _gen_h2_idle_twice(rng, tier)
     yield from _gen_peer_gone(rng, tier)
     yield from _gen_ping_burst(rng, tier)
     # the per-connection state seen by an application is part of the scope it is handed: it has to be the same on both workers,
